@@ -48,7 +48,8 @@ class C04(EngineProp):
             ys = lambda: [["sleep", 0]] * draw(st.integers(0, 4))  # noqa: E731
             n0 = draw(st.integers(1, 2))
             via = draw(st.sampled_from(["plain", "plain", "collect", "wait"]))
-            stopper = [["sleep", d]] + ys() + [["ret", draw(st.sampled_from(["GStop", "GStop", "nonevent"]))]]
+            react = draw(st.sampled_from([False, False, True]))
+            stopper = [["sleep", d]] + ys() + ([["ret", draw(st.sampled_from(["GStop", "GStop", "nonevent"]))]] if not react else [["fail", None, "GenError"], ["ret", None]])
             ext = []
             if via == "collect":
                 n0 = 2
@@ -61,7 +62,11 @@ class C04(EngineProp):
                  "acts": {"GStart": [["send", "E0", n0, None], ["send", "E1", draw(st.integers(1, 3)), None], ["ret", None]]}},
                 {"name": "b", "accepts": ["E0"], "workers": draw(st.integers(1, 2)), "retry": None, "acts": {"E0": stopper}},
                 {"name": "c", "accepts": ["E1"], "workers": draw(st.integers(1, 3)), "retry": None, "cancel_note": draw(st.booleans()),
-                 "acts": {"E1": [["sleep", draw(st.sampled_from([d, d, 0, 1, 3]))]] + ys() + [["stream", "Note"]] + ys() + [["stream", "Note"], ["sleep", draw(st.sampled_from([0, 1, 5]))], ["ret", None]]}},
+                 "acts": {"E1": [["sleep", draw(st.sampled_from([d, d, 0, 1, 3]))]] + ys() + [["stream", "Note"]] + ys() + [["stream", "Note"], ["sleep", draw(st.sampled_from([0, 1, 5]))], ["ret", None]]
+                          if not react else
+                          # a sibling that writes only in REACTION to the terminal event: it parks until the stream's consumer has seen
+                          # one; a run whose other workers are cancelled together with the terminal publish never lets it write
+                          [["sleep", draw(st.sampled_from([0, 0, 1]))], ["wait_terminal"]] + ys() + [["stream", "Note", {"reaction": 1}], ["sleep", 5], ["ret", None]]}},
                 {"name": "fin", "accepts": ["Fin"], "workers": 1, "retry": None, "acts": {"Fin": [["ret", "GStop"]]}},
             ]
             return {"steps": steps, "timeout": None, "ext": ext, "ties": draw(st.lists(st.integers(0, 7), max_size=6))}
@@ -169,6 +174,8 @@ class C04(EngineProp):
         out = rec.outcome
         kind = out["kind"]
         r.classes.append("outcome_" + kind)
+        if any(a_[0] == "wait_terminal" for s_ in spec["steps"] for acts in s_["acts"].values() for a_ in acts):
+            r.classes.append("sibling_reacts_to_terminal_event")
         for n_ in rec.notes:
             if "prior_run_id" in n_:
                 r.classes.append("run_id_used_before_" + n_["prior_run_id"])
@@ -211,7 +218,8 @@ class C04(EngineProp):
             # what is left: events a step wrote itself (ctx.write_event_to_stream -> Note) and step-state telemetry, or something else
             # (e.g. a second terminal event)
             r.v("publish_queue_not_empty_after_terminal", left=rec.publish_left, outcome=kind, left_types=left_types,
-                only_step_written_events=bool(left_types) and set(left_types) <= {"Note", "StepStateChanged"})
+                only_step_written_events=bool(left_types) and set(left_types) <= {"Note", "StepStateChanged"},
+                written_in_reaction_to_terminal=bool(getattr(rec, "publish_left_reaction", False)))
         # how many workers were running at the terminal tick
         par = 0
         if rec.ticks:
